@@ -17,7 +17,8 @@ from __future__ import annotations
 
 import ast
 
-from ..absint import Interp, Sym, StreamV, BufV, BytesV, Obj, Raised, explore, show
+from ..absint import Interp, Sym, StreamV, BufV, BytesV, Obj, Raised, explore, show, is_exact
+from ..bits import bits_relation
 from ..bits import Bits
 from ..consts import Folder, Unknown
 from ..model import DEX, AnalysisError, walk_no_nested
@@ -60,7 +61,7 @@ def _spec_int(nbytes, signed, asg):
 
 
 def _hooks():
-    return {"inline_funcs": {"get_byte", "get_sbyte"}}
+    return {"inline_funcs": {"*module*"}}
 
 
 def run(ctx):
@@ -128,6 +129,8 @@ def _check_header(ctx, repo, folder, m, cls, init, t, name, arg, kind, reader_va
         if kind in ("sint", "uint"):
             exp = _spec_int(nbytes, kind == "sint", asg)
             got = Bits.const(val) if isinstance(val, int) and not isinstance(val, bool) else val
+            if not is_exact(got) and not (isinstance(got, Bits) and bits_relation(got.subst(asg), exp) == "different"):
+                raise AnalysisError("EncodedValue.__init__: the value of %s leaves the exact bit domain (%s)" % (inst, show(got)[:160]))
             ok = isinstance(got, Bits) and got.subst(asg) == exp
             ctx.check("int-value", inst, ok, init, "%s/%d byte(s): %s" % (name, nbytes, show(got)[:120]),
                       "%s with %d byte(s) is reported as %s; the DEX specification says %s (%s-extended)" % (
@@ -140,6 +143,8 @@ def _check_header(ctx, repo, folder, m, cls, init, t, name, arg, kind, reader_va
             exp = _spec_int(nbytes, False, asg)
             ok = False
             why = show(val)[:200]
+            if isinstance(val, Sym) and not (val.op == "call" and val.args and isinstance(val.args[0], Sym) and val.args[0].op == "attr" and val.args[0].args[0] == Sym("cm")):
+                raise AnalysisError("EncodedValue.__init__: the value of %s is a term the rule cannot read (%s)" % (inst, why))
             if isinstance(val, Sym) and val.op == "call" and val.args and isinstance(val.args[0], Sym) and val.args[0].op == "attr":
                 recv, meth = val.args[0].args[0], val.args[0].args[1]
                 idx = val.args[1] if len(val.args) > 1 else None
@@ -161,47 +166,65 @@ def _check_header(ctx, repo, folder, m, cls, init, t, name, arg, kind, reader_va
 
 
 def _check_binding(ctx, m):
+    """ClassDataItem.set_static_fields is executed abstractly on marker fields F0..F2 and marker values:
+    value i must be bound to static field i (and to nothing else)."""
+    repo = ctx.repo
+    folder = Folder(repo)
     cdi = m.cls("ClassDataItem")
     f = cdi.lookup("set_static_fields")
     ctx.require(f is not None, "ClassDataItem.set_static_fields vanished")
     ctx.analysed(f)
-    calls = [n for n in walk_no_nested(f.node) if isinstance(n, ast.Call) and isinstance(n.func, ast.Attribute) and n.func.attr == "set_init_value"]
-    ctx.require(len(calls) >= 1, "set_static_fields no longer calls set_init_value (shape not understood)")
-    # names bound to value.get_values()
-    vals_names = set()
-    param = f.params()[1] if len(f.params()) > 1 else None
-    for n in walk_no_nested(f.node):
-        if isinstance(n, ast.Assign) and isinstance(n.value, ast.Call) and isinstance(n.value.func, ast.Attribute) and n.value.func.attr == "get_values":
-            if isinstance(n.value.func.value, ast.Name) and n.value.func.value.id == param:
-                for t in n.targets:
-                    if isinstance(t, ast.Name):
-                        vals_names.add(t.id)
-    for c in calls:
-        recv, arg = c.func.value, c.args[0] if c.args else None
-        ok = False
-        understood = False
-        if isinstance(recv, ast.Subscript) and isinstance(arg, ast.Subscript):
-            understood = True
-            ok = (ast.unparse(recv.value) == "self.static_fields" and isinstance(arg.value, ast.Name) and arg.value.id in vals_names
-                  and ast.unparse(recv.slice) == ast.unparse(arg.slice) and isinstance(recv.slice, ast.Name))
-        elif isinstance(recv, ast.Name) and isinstance(arg, ast.Name):
-            # for f, v in zip(self.static_fields, values)
-            p = c
-            from ..model import parent
-            while p is not None and not isinstance(p, ast.For):
-                p = parent(p)
-            if p is not None and isinstance(p.iter, ast.Call) and ast.unparse(p.iter.func) == "zip" and isinstance(p.target, ast.Tuple) and len(p.target.elts) == 2:
-                understood = True
-                a0, a1 = p.iter.args[:2]
-                t0, t1 = [ast.unparse(x) for x in p.target.elts]
-                ok = ast.unparse(a0) == "self.static_fields" and isinstance(a1, ast.Name) and a1.id in vals_names and recv.id == t0 and arg.id == t1
-        if not understood:
-            raise AnalysisError("%s: binding of static values to fields has a shape the rule does not understand: %s" % (f.loc(c), ast.unparse(c)))
-        ctx.check("binding", "static value i -> static field i", ok, f, c,
-                  "static value and static field are not bound index by index: %s" % ast.unparse(c), node=c,
-                  detail="self.static_fields[i].set_init_value(values[i])")
-    ctx.count("bindings", len(calls))
-    ctx.floor("bindings", 1)
+
+    class _Mark:
+        def __init__(self, name):
+            self.name = name
+
+        def __repr__(self):
+            return self.name
+
+    for nvals in (0, 1, 2, 3):
+        fields = [_Mark("F%d" % k) for k in range(3)]
+        inst_fields = [_Mark("I%d" % k) for k in range(2)]
+        vals = [_Mark("V%d" % k) for k in range(nvals)]
+        bound = []
+
+        def method(it, recv, name, args, kwargs, e, func):
+            if isinstance(recv, _Mark):
+                if name == "set_init_value" and args:
+                    bound.append((recv, args[0]))
+                    return None
+                return Sym("%s.%s" % (recv.name, name))
+            if isinstance(recv, Obj) and recv.name == "encoded_array" and name == "get_values":
+                return list(vals)
+            return NotImplemented
+
+        def run(asg):
+            del bound[:]
+            it = Interp(repo, folder, asg=dict(asg), hooks={"method": method, "inline_funcs": {"*module*"} | {q.qualname for c in cdi.mro() for q in c.methods.values()}})
+            o = Obj(cdi, "class_data")
+            o.attrs["static_fields"] = list(fields)
+            o.attrs["instance_fields"] = list(inst_fields)
+            o.attrs["direct_methods"] = []
+            o.attrs["virtual_methods"] = []
+            arr = Obj(None, "encoded_array")
+            it.call_function(f, [arr], recv=o)
+            return list(bound)
+
+        res = explore(run)
+        if len(res) != 1:
+            raise AnalysisError("ClassDataItem.set_static_fields: abstract run split into %d paths" % len(res))
+        r = res[0][1]
+        inst = "%d static value(s), 3 static fields" % nvals
+        if isinstance(r, Raised):
+            ctx.check("binding", inst, False, f, "set_static_fields raises %s" % r.exc, "set_static_fields raises %s with %s" % (r, inst), node=r.node)
+            continue
+        want = [(fields[k], vals[k]) for k in range(nvals)]
+        ok = len(r) == len(want) and all(a is c and b is d for (a, b), (c, d) in zip(sorted(r, key=lambda t: repr(t)), sorted(want, key=lambda t: repr(t))))
+        ctx.check("binding", inst, ok, f, "static value i -> static field i (%s)" % ("ok" if ok else "got %s" % r),
+                  "static values are not bound index by index to the static fields: with %s the bindings are %s, expected %s" % (inst, r, want),
+                  detail="bindings %s" % want)
+        ctx.count("bindings")
+    ctx.floor("bindings", 4)
 
 
 def _mentions(term, v):
@@ -216,22 +239,30 @@ def _mentions(term, v):
     return False
 
 
+def _flatten(v, out):
+    if isinstance(v, (list, tuple)):
+        for x in v:
+            _flatten(x, out)
+    elif isinstance(v, Sym) and v.op == "call" and v.args and isinstance(v.args[0], Sym) and v.args[0].op == "attr" and v.args[0].args[-1] == "join":
+        for x in v.args[1:]:
+            _flatten(x, out)
+    elif isinstance(v, Sym) and v.op in ("concat", "strop", "extend"):
+        for x in v.args:
+            _flatten(x, out)
+    else:
+        out.append(v)
+
+
 def _check_printing(ctx, repo, folder, reader_values):
+    """DvClass.get_source is executed abstractly on a class with one static field whose initial value is the reader's
+    abstract value; the number that reaches the formatted initialiser must be the value the DEX file defines."""
     dm = ctx.mod("androguard/decompiler/decompile.py")
-    f = dm.cls("DvClass").lookup("get_source")
+    cls = dm.cls("DvClass")
+    f = cls.lookup("get_source")
     ctx.require(f is not None, "DvClass.get_source vanished")
     ctx.analysed(f)
-    # the loop over the fields: the `for` whose body reads <loopvar>.get_init_value()
-    loop = None
-    for n in ast.walk(f.node):
-        if isinstance(n, ast.For) and isinstance(n.target, ast.Name):
-            for c in ast.walk(n):
-                if isinstance(c, ast.Call) and isinstance(c.func, ast.Attribute) and c.func.attr == "get_init_value" \
-                        and isinstance(c.func.value, ast.Name) and c.func.value.id == n.target.id:
-                    loop = n
-    ctx.require(loop is not None, "DvClass.get_source: the loop printing field initialisers was not found")
-    fieldvar = loop.target.id
     JAVA = {"B": "byte", "S": "short", "C": "char", "I": "int", "J": "long"}
+    helpers = {"*module*"} | {q.qualname for c in cls.mro() for q in c.methods.values() if q.name != "get_source"}
     for letter, t in PROTO_OF.items():
         maxarg = SPEC[t][1]
         for arg in range(maxarg + 1):
@@ -244,7 +275,6 @@ def _check_printing(ctx, repo, folder, reader_values):
 
             def runp(extra, got=got, letter=letter, asg=asg, arg=arg):
                 a = {**asg, **extra}
-                captured = []
                 iv = Obj(None, "init_value")
                 iv.attrs["value"] = got
                 fld = Obj(None, "field")
@@ -257,60 +287,65 @@ def _check_printing(ctx, repo, folder, reader_values):
                             return iv
                         if name == "get_descriptor":
                             return letter
+                        if name == "get_access_flags":
+                            return 0
+                        if name == "get_name":
+                            return "fieldname"
                         return Sym("field." + name)
                     if recv is iv and name in ("get_value",):
                         return got
                     if name == "get_type" and args and args[0] == letter:
                         return JAVA[letter]
-                    if name in ("append", "write", "extend") and not isinstance(recv, list) and args:
-                        captured.append(args[0])
-                        return None
+                    if name == "get_access_field":
+                        return []
                     return NotImplemented
 
-                helpers = {q for q, fn in dm.functions.items() if "." not in q}
                 it = Interp(repo, folder, asg=a, hooks={"method": method, "inline_funcs": helpers})
                 it.max_split = 8 if arg == 0 else 4
-                env = {fieldvar: fld, "__func__": f}
-                try:
-                    it.exec_block(loop.body, env, f)
-                except Exception as ex:
-                    if type(ex).__name__ in ("_Break", "_Continue"):
-                        pass
-                    else:
-                        raise
-                return a, captured
+                o = Obj(cls, "dvclass")
+                o.attrs.update(fields=[fld], methods=[], interfaces=[], superclass=None, prototype="class X", access=[], name="X", package="p",
+                               subclasses={}, thisclass="Lp/X;", inner=False)
+                res = it.call_function(f, [], recv=o)
+                return a, res
 
             res = explore(runp)
+            if len(res) > 1200:
+                raise AnalysisError("DvClass.get_source: %d abstract paths for one field" % len(res))
             for a0, r in res:
                 if isinstance(r, Raised):
-                    ctx.check("printed", inst, False, f, "print %s raises %s" % (SPEC[t][0], r.exc),
-                              "printing a %s initialiser raises %s for some stored values" % (JAVA[letter], r), node=r.node)
-                    continue
+                    if r.exc in ("struct.error", "OverflowError", "ValueError"):
+                        ctx.check("printed", inst, False, f, "print %s raises %s" % (SPEC[t][0], r.exc),
+                                  "printing a %s initialiser raises %s for some stored values" % (JAVA[letter], r), node=r.node)
+                        continue
+                    raise AnalysisError("DvClass.get_source: abstract run raises %s" % r)
                 a, out = r
+                pieces_ = []
+                _flatten(out, pieces_)
                 printed = None
-                for piece in out:
-                    if isinstance(piece, Sym) and piece.op == "strformat":
-                        args = piece.args[1] if isinstance(piece.args[1], tuple) else (piece.args[1],)
+                for piece in pieces_:
+                    if isinstance(piece, Sym) and piece.op in ("strformat", "fstring"):
+                        args = piece.args[1] if len(piece.args) > 1 and isinstance(piece.args[1], tuple) else piece.args[1:]
                         for x in args:
                             y = x.args[0] if isinstance(x, Sym) and x.op in ("hex", "str") and x.args else x
                             if isinstance(y, Bits) or (isinstance(y, int) and not isinstance(y, bool)):
                                 printed = x
-                ok = False
+                    elif isinstance(piece, Sym) and piece.op in ("hex", "str") and piece.args and isinstance(piece.args[0], Bits):
+                        printed = piece
+                    elif isinstance(piece, str) and "fieldname" in piece and "=" in piece:
+                        # the value was a constant on this path: the initialiser is concrete text
+                        import re as _re
+                        mm = _re.search(r"=\s*(-?(?:0[xX][0-9a-fA-F]+|\d+))", piece)
+                        if mm:
+                            printed = int(mm.group(1), 0)
                 pv = printed
                 if isinstance(pv, Sym) and pv.op in ("hex", "str") and pv.args:
                     pv = pv.args[0]
                 if isinstance(pv, int) and not isinstance(pv, bool):
                     pv = Bits.const(pv)
-                if isinstance(pv, Bits):
-                    ok = pv.subst(a) == exp.subst(a)
                 if printed is None:
-                    # nothing numeric recognised: fine only if the stored value does not reach any formatted piece at all
-                    # (e.g. the initialiser branch is skipped); an opaque term that carries it is outside the fragment
-                    for piece in out:
-                        if _mentions(piece, got):
-                            raise AnalysisError("%s: the initialiser value reaches the output through a term the rule cannot evaluate: %s" % (
-                                f.qualname, show(piece)[:200]))
-                    continue
+                    raise AnalysisError("DvClass.get_source: could not find the printed initialiser of a %s field in the abstract output (%s)" % (
+                        JAVA[letter], ", ".join(show(p)[:50] for p in pieces_[:6])))
+                ok = isinstance(pv, Bits) and pv.subst(a) == exp.subst(a)
                 ctx.count("printed_paths")
                 ctx.check("printed", inst, ok, f, "print %s/%d byte(s): %s" % (SPEC[t][0], arg + 1, show(printed)[:120]),
                           "the %s initialiser is printed from %s; the value the DEX file defines is %s" % (JAVA[letter], show(printed)[:160], exp.describe()),
@@ -318,7 +353,6 @@ def _check_printing(ctx, repo, folder, reader_values):
             ctx.count("print_cases")
     ctx.floor("print_cases", 10)
     ctx.floor("printed_paths", 10)
-
 
 MUTATION_TARGETS = [(DEX, "EncodedValue.__init__"), (DEX, "EncodedValue._getintvalue"), (DEX, "EncodedValue.get_value"),
                     (DEX, "ClassDataItem.set_static_fields"), ("androguard/decompiler/decompile.py", "DvClass.get_source")]
